@@ -1392,14 +1392,28 @@ class MPO:
                     )  # (4, 1, dq, dq)
 
                 else:
+                    # rows: state left of the qubit (0, 2: finished; 1: resonator half of a coupling placed; 3: nothing yet),
+                    # columns: state right of it (0: finished; 1: next resonator term; 2: qubit half placed; 3: nothing yet)
                     tensor = np.empty((4, 4, qubit_dim, qubit_dim), dtype=object)
                     tensor[:, :] = [[zero_q for _ in range(4)] for _ in range(4)]
-                    tensor[0, 0] = h_q
-                    tensor[0, 1] = id_q
-                    tensor[0, 2] = coupling * x_q  # right resonator
-                    tensor[1, 3] = coupling * x_q  # left resonator
-                    tensor[0, 3] = id_q
+                    tensor[0, 0] = id_q
+                    tensor[2, 0] = id_q
+                    tensor[1, 0] = coupling * x_q  # left resonator
+                    tensor[3, 0] = h_q
+                    tensor[3, 1] = id_q
+                    tensor[3, 2] = coupling * x_q  # right resonator
                     tensor[3, 3] = id_q
+            elif i == length - 1:
+                # Resonator closing an even-length chain
+                tensor = np.array(
+                    [
+                        [id_r],
+                        [h_r],
+                        [x_r],
+                        [zero_r],
+                    ],
+                    dtype=object,
+                )  # (4, 1, dr, dr)
             else:
                 # Resonator site
                 tensor = np.empty((4, 4, resonator_dim, resonator_dim), dtype=object)
